@@ -53,6 +53,12 @@ def run_one(mut, tier, base_tmp, run_tests):
             return mut, "STALE", "old text not found"
         s2 = s.replace(mut["old"], mut["new"], mut.get("count", 1))
         open(path, "w").write(s2)
+        for f2, old2, new2 in mut.get("also", []):
+            p2 = os.path.join(repo, f2)
+            t2 = open(p2).read()
+            if old2 not in t2:
+                return mut, "STALE", "also: old text not found"
+            open(p2, "w").write(t2.replace(old2, new2, 1))
         env = dict(os.environ, VF_REPO=repo, VF_TMP=d, PYTHONDONTWRITEBYTECODE="1",
                    VF_EVIDENCE_DIR=os.path.join(d, "evidence"),
                    VF_REPLAY_DIR=os.path.join(d, "replays"))
